@@ -216,7 +216,9 @@ def c10(tier, seed, work):
     res["coverage"]["rule"] += (" Over UDP loopback with the library's own back-off: node busy once or twice, each answered promptly, then the "
                                 "final answer, in and out of a session, per-attempt timeouts 150 and 300 ms (shorter than the back-off pauses): "
                                 "the command must return that answer (three-fold reproduction for a violation).")
-    return add_walk(res, work, [dict(name="c10-lun", module="MCGenSensor", cfg_tpl="Gen_Cipher.cfg.tpl", family="lun", tier=tier, seed=seed)],
+    return add_walk(res, work, [dict(name="c10-lun", module="MCGenSensor", cfg_tpl="Gen_Cipher.cfg.tpl", family="lun", tier=tier, seed=seed),
+                                # every command, alone, twice in a row, and on the connection / in the session alternately
+                                dict(name="c10-api", module="MCGenApi", cfg_tpl="Gen_Cipher.cfg.tpl", family="api", tier=tier, seed=seed)],
                     "Commands addressed to responder LUN 0..3 (Get Sensor Reading through a sensor reader), answered from that LUN with "
                     "temporary codes and then the reading.")
 
@@ -742,7 +744,8 @@ def c05_vec(tier, seed, work):
     W = dict(module="MCGenWireVec")
     return vec_check("C05", tier, seed, work, [_vf("c05-total", "totality", tier, seed), _vf("c05-reuse", "reuse", tier, seed), _vf("c05-history", "rsp", tier, seed),
                                                _vf("c05-message", "message", tier, seed, **W),
-                                               _vf("c05-wrapper", "wrapper", tier, seed, **W), _vf("c05-setup", "setup", tier, seed, **W)],
+                                               _vf("c05-wrapper", "wrapper", tier, seed, **W), _vf("c05-setup", "setup", tier, seed, **W),
+                                               _vf("c05-aes", "aes", tier, seed, **W)],
                      "Totality of every decodable layer (28 layers): pseudo-random strings of many lengths incl. 500..512, constant strings, "
                      "every prefix and single-byte substitution {00,7F,80,FF} at every offset of valid encodings; each decoded on an "
                      "exact-capacity slice and inside a 512-byte buffer with two fillings (results must agree).")
